@@ -66,6 +66,18 @@ func (l *Loader) getLimits() Limits {
 	return l.limits
 }
 
+// loadState is the bookkeeping of one Load: the files whose includes are being
+// followed right now (an include of one of them is a cycle) and the files that
+// are already part of the result (a second, acyclic path to one of them is fine).
+type loadState struct {
+	ancestors map[string]bool
+	loaded    map[string]bool
+}
+
+func newLoadState() *loadState {
+	return &loadState{ancestors: make(map[string]bool), loaded: make(map[string]bool)}
+}
+
 func (l *Loader) Load(path string) (*ResolvedJournal, []LoadError) {
 	limits := l.getLimits()
 	info, err := os.Stat(path)
@@ -94,7 +106,7 @@ func (l *Loader) Load(path string) (*ResolvedJournal, []LoadError) {
 		}}
 	}
 
-	return l.loadWithContent(path, string(content), make(map[string]bool))
+	return l.loadWithContent(path, string(content), newLoadState())
 }
 
 func (l *Loader) LoadFromContent(path, content string) (*ResolvedJournal, []LoadError) {
@@ -106,20 +118,11 @@ func (l *Loader) LoadFromContent(path, content string) (*ResolvedJournal, []Load
 			Message: fmt.Sprintf("file too large: %d bytes (max %d)", len(content), limits.MaxFileSizeBytes),
 		}}
 	}
-	return l.loadWithContent(path, content, make(map[string]bool))
+	return l.loadWithContent(path, content, newLoadState())
 }
 
-func (l *Loader) loadWithContent(path, content string, visited map[string]bool) (*ResolvedJournal, []LoadError) {
+func (l *Loader) loadWithContent(path, content string, state *loadState) (*ResolvedJournal, []LoadError) {
 	var errors []LoadError
-	limits := l.getLimits()
-
-	if len(visited) >= limits.MaxIncludeDepth {
-		return nil, []LoadError{{
-			Kind:    ErrorCycleDetected,
-			Path:    path,
-			Message: fmt.Sprintf("include depth limit exceeded (%d)", limits.MaxIncludeDepth),
-		}}
-	}
 
 	journal, parseErrs := parser.Parse(content)
 	for _, e := range parseErrs {
@@ -137,7 +140,9 @@ func (l *Loader) loadWithContent(path, content string, visited map[string]bool) 
 	}
 
 	result := NewResolvedJournal(journal)
-	visited[path] = true
+	state.ancestors[path] = true
+	state.loaded[path] = true
+	defer delete(state.ancestors, path)
 
 	for _, inc := range journal.Includes {
 		if IsGlobPattern(inc.Path) {
@@ -153,7 +158,7 @@ func (l *Loader) loadWithContent(path, content string, visited map[string]bool) 
 			}
 
 			for _, matchPath := range matches {
-				subErrors := l.loadSingleInclude(path, matchPath, inc.Range, visited, result)
+				subErrors := l.loadSingleInclude(path, matchPath, inc.Range, state, result)
 				errors = append(errors, subErrors...)
 			}
 			continue
@@ -170,7 +175,7 @@ func (l *Loader) loadWithContent(path, content string, visited map[string]bool) 
 			continue
 		}
 
-		subErrors := l.loadSingleInclude(path, includePath, inc.Range, visited, result)
+		subErrors := l.loadSingleInclude(path, includePath, inc.Range, state, result)
 		errors = append(errors, subErrors...)
 	}
 
@@ -180,13 +185,13 @@ func (l *Loader) loadWithContent(path, content string, visited map[string]bool) 
 func (l *Loader) loadSingleInclude(
 	basePath, includePath string,
 	incRange ast.Range,
-	visited map[string]bool,
+	state *loadState,
 	result *ResolvedJournal,
 ) []LoadError {
 	var errors []LoadError
 	limits := l.getLimits()
 
-	if visited[includePath] {
+	if state.ancestors[includePath] {
 		errors = append(errors, LoadError{
 			Kind:    ErrorCycleDetected,
 			Path:    includePath,
@@ -196,10 +201,26 @@ func (l *Loader) loadSingleInclude(
 		return errors
 	}
 
+	if state.loaded[includePath] {
+		// reached before along another path: already part of the result
+		return errors
+	}
+
+	if len(state.ancestors) >= limits.MaxIncludeDepth {
+		errors = append(errors, LoadError{
+			Kind:    ErrorCycleDetected,
+			Path:    includePath,
+			Message: fmt.Sprintf("include depth limit exceeded (%d)", limits.MaxIncludeDepth),
+			Range:   incRange,
+		})
+		return errors
+	}
+
 	l.mu.RLock()
 	cached, ok := l.cache[includePath]
 	l.mu.RUnlock()
 	if ok {
+		state.loaded[includePath] = true
 		result.Files[includePath] = cached
 		result.FileOrder = append(result.FileOrder, includePath)
 		return errors
@@ -237,7 +258,7 @@ func (l *Loader) loadSingleInclude(
 		return errors
 	}
 
-	subResult, subErrors := l.loadWithContent(includePath, string(incContent), visited)
+	subResult, subErrors := l.loadWithContent(includePath, string(incContent), state)
 	errors = append(errors, subErrors...)
 
 	if subResult != nil && subResult.Primary != nil {
